@@ -49,11 +49,15 @@ impl Kanata {
                 };
                 self.cur_keys.retain(|k| *k != kc);
             }
+            self.cur_keys.extend(self.unmodded_keys.iter());
         }
         if !self.unshifted_keys.is_empty() {
             self.cur_keys
                 .retain(|k| !matches!(k, KeyCode::LShift | KeyCode::RShift));
+            self.cur_keys.extend(self.unshifted_keys.iter());
         }
+        // The unmod / unshift keys are part of the pressed keys before the overrides are applied:
+        // an override can be triggered by them, and can take them or a modifier away again.
         self.overrides
             .override_keys(&mut self.cur_keys, &mut self.override_states);
 
@@ -70,8 +74,7 @@ impl Kanata {
             let mut held_layer_active = false;
             for layer in active_held_layers {
                 held_layer_active = true;
-                if let Some(outputs_for_key) =
-                    self.key_outputs[usize::from(layer)].get(&event.code)
+                if let Some(outputs_for_key) = self.key_outputs[usize::from(layer)].get(&event.code)
                 {
                     log::debug!("key outs for active layer-while-held: {outputs_for_key:?};");
                     for osc in outputs_for_key
@@ -81,10 +84,7 @@ impl Kanata {
                         .filter(|osc| osc.is_modifier() == want_modifier)
                     {
                         let kc = osc.into();
-                        if self.cur_keys.contains(&kc)
-                            || self.unshifted_keys.contains(&kc)
-                            || self.unmodded_keys.contains(&kc)
-                        {
+                        if self.cur_keys.contains(&kc) {
                             log::debug!("repeat    {:?}", KeyCode::from(osc));
                             if let Err(e) = write_key(&mut self.kbd_out, osc, KeyValue::Repeat) {
                                 bail!("could not write key {e:?}")
@@ -115,10 +115,7 @@ impl Kanata {
                     .filter(|osc| osc.is_modifier() == want_modifier)
                 {
                     let kc = osc.into();
-                    if self.cur_keys.contains(&kc)
-                        || self.unshifted_keys.contains(&kc)
-                        || self.unmodded_keys.contains(&kc)
-                    {
+                    if self.cur_keys.contains(&kc) {
                         log::debug!("repeat    {:?}", KeyCode::from(osc));
                         if let Err(e) = write_key(&mut self.kbd_out, osc, KeyValue::Repeat) {
                             bail!("could not write key {e:?}")
@@ -136,10 +133,7 @@ impl Kanata {
             }
             log::debug!("checking defsrc output");
             let kc = event.code.into();
-            if self.cur_keys.contains(&kc)
-                || self.unshifted_keys.contains(&kc)
-                || self.unmodded_keys.contains(&kc)
-            {
+            if self.cur_keys.contains(&kc) {
                 if let Err(e) = write_key(&mut self.kbd_out, event.code, KeyValue::Repeat) {
                     bail!("could not write key {e:?}");
                 }
